@@ -90,6 +90,14 @@ def step : List String → String
   | ["table", "hab", ks] => match parseKeys ks with | some ks => "ok:" ++ hx (Spec.habTable ks) | none => "bad-op"
   | ["table", "v1", ks] => match parseKeys ks with | some ks => "ok:" ++ hx (Spec.rkhTableV1 execOps (ks.map (·.1))) | none => "bad-op"
   | ["table", "v21", ks] => match parseKeys ks with | some ks => "ok:" ++ hx (Spec.ctrkTable execOps (ks.map (·.1))) | none => "bad-op"
+  | ["setseq", init, ops] =>
+    let parseOp (s : String) : Option (Nat × B) := match s.splitOn ":" with
+      | [i, h] => do pure (← i.toNat?, ← parseHex h) | _ => none
+    match parseHexList init, parseList parseOp ops with
+    | some l, some os => match Rkht.setSeq l os with
+      | .ok l' => s!"ok:{hexL l'} {okHex (Rkht.rkthV1 execOps l')}"
+      | .error e => resLine (fun (_ : Unit) => "") (.error e)
+    | _, _ => "bad-op"
   | ["fuses", h] => match parseHex h with
     | some b => "ok:" ++ ",".intercalate ((Rkht.rkthFuses b).map toString) | none => "bad-op"
   | ["export", k] => match parseKey k with | some (k, _) => okHex (Rkht.exportKey k) | none => "bad-op"
